@@ -284,4 +284,14 @@ def proof_stage(res, pid):
                                 detail=pr["open"])
     else:
         res.proof_broken = None
+    # thorough tier: re-check the compiled theory and everything it depends on with the independent checker
+    if res.tier == "thorough" and pr["ok"]:
+        with Lock("coq"):
+            rc, out = sh(f"timeout 1500 coqchk -o -silent -Q theories WacV WacV.props.{pid}", cwd=COQ, timeout=1600)
+        summary = out[out.find("CONTEXT SUMMARY"):] if "CONTEXT SUMMARY" in out else out[-1500:]
+        axioms_none = "* Axioms: <none>" in summary
+        res.coverage["coqchk"] = dict(ok=(rc == 0), axioms_none=axioms_none, summary=" ".join(summary.split())[:600])
+        if rc != 0 or not axioms_none or "type-in-type: <none>" not in summary or "unsafe (co)fixpoints: <none>" not in summary \
+                or "positivity is assumed: <none>" not in summary:
+            res.violation(dict(kind="audit", what="coqchk does not accept the compiled theory as axiom-free", log=out[-3000:]), no_input=True)
     return pr
